@@ -1,6 +1,8 @@
 //! Verification harness: drives the real crates from /repo and writes ndjson traces that the
 //! TLA+ trace specifications in /verif/spec judge.  Rust only drives and projects; no verdicts.
 mod bq;
+mod tok;
+mod tokgen;
 mod utf8;
 mod util;
 
@@ -15,6 +17,7 @@ fn main() {
     let args = util::Args(argv[2..].to_vec());
     match argv[1].as_str() {
         "bq" => bq::main(&args),
+        "tok" => tok::main(&args),
         "utf8" => utf8::main_utf8(&args),
         "enc" => utf8::main_enc(&args),
         x => {
